@@ -65,12 +65,12 @@ Lemma as_polyline_spec P n_pts custom : P <> [] -> (point_dim P = 2 \/ point_dim
   let ts := curve_params Rops n_pts custom in
   Forall unit_closed ts ->
   as_polyline Rops P n_pts custom =
-    Ok (map (fun t => padf (bernstein_vec P t)) ts, ts, polyline_edges n_pts (Z.of_nat (length ts))).
+    Ok (map (fun t => padf (bernstein_vec P t)) ts, ts, polyline_edges n_pts (Z.of_nat (length ts)) (Z.of_nat (length ts))).
 Proof.
   intros HP Hd ts Hts. unfold as_polyline. fold ts.
   rewrite (res_seq_map_ok _ (bernstein_vec P)).
   - cbn [res_bind]. rewrite map_map.
-    rewrite (somes_map_some _ (fun t => padf (bernstein_vec P t))); [reflexivity|].
+    rewrite (somes_map_some _ (fun t => padf (bernstein_vec P t))); [rewrite map_length; reflexivity|].
     intros t _. apply pad3_ok. now rewrite bernstein_vec_length.
   - intros t Ht. rewrite Forall_forall in Hts. apply de_casteljau_vec_bernstein; [assumption | now apply Hts].
 Qed.
@@ -79,7 +79,7 @@ Qed.
 Lemma as_polyline_default P n_pts : P <> [] -> (point_dim P = 2 \/ point_dim P = 3)%nat ->
   as_polyline Rops P n_pts None =
     Ok (map (fun t => padf (bernstein_vec P t)) (linspace Rops 0 1 n_pts), linspace Rops 0 1 n_pts,
-        polyline_edges n_pts (Z.of_nat (length (linspace Rops 0 1 n_pts)))).
+        polyline_edges n_pts (Z.of_nat (length (linspace Rops 0 1 n_pts))) (Z.of_nat (length (linspace Rops 0 1 n_pts)))).
 Proof. intros HP Hd. apply (as_polyline_spec P n_pts None HP Hd). apply linspace01_all_unit. Qed.
 
 Lemma res_seq_first_err {A} (l : list (res A)) e0 :
